@@ -19,6 +19,7 @@ IR_FOR_OPSET = {18: 8, 19: 9, 20: 9, 21: 10, 22: 10, 23: 11, 24: 12, 25: 13}
 FOCUS_OPS = ["DFT", "GridSample", "GroupNormalization", "Relu", "Add", "Reshape", "Resize", "Cast", "ReduceSum"]
 PLACES = ["main", "if_inner", "if_outer", "func", "func_if"]
 INITS = ["plain", "overridable", "big"]
+NAMES = ["plain", "val"]                         # "val": outer values named like generated names (val_0, val_1, ...)
 
 # -- per-op parameter menus (entry 0 = default) ------------------------------------------------------------
 DFT_AXIS = ["1", "absent", "-2", "2"]          # "2" needs rank 4
@@ -321,4 +322,63 @@ def build(spec):
         f = dict(feeds_list[1])
         f["cond"] = np.array(True)
         feeds_list.append(f)
+    if spec.get("names", "plain") == "val":
+        model, feeds_list = _rename_like_generated(model, feeds_list)
     return model, feeds_list
+
+
+def _rename_like_generated(model, feeds_list):
+    """Every value defined in the main graph (inputs, initializers, node outputs) and in each function body is renamed
+    val_0, val_1, ... - the names onnx_ir's name authority (and the torch exporter) generate - so that a value
+    created later by an adapter inside a subgraph can collide with a visible outer name.  Subgraph-local names stay."""
+    def scope_names(inputs, inits, nodes):
+        names = list(inputs) + list(inits)
+        for n in nodes:
+            names += [o for o in n.output if o]
+        seen, out = set(), []
+        for n in names:
+            if n not in seen:
+                seen.add(n)
+                out.append(n)
+        return out
+
+    def apply(nodes, mp):
+        for n in nodes:
+            for i, x in enumerate(n.input):
+                if x in mp:
+                    n.input[i] = mp[x]
+            for i, x in enumerate(n.output):
+                if x in mp:
+                    n.output[i] = mp[x]
+            for a in n.attribute:
+                if a.type == onnx.AttributeProto.GRAPH:
+                    apply_graph(a.g, mp)
+                elif a.type == onnx.AttributeProto.GRAPHS:
+                    for g2 in a.graphs:
+                        apply_graph(g2, mp)
+
+    def apply_graph(g2, mp):
+        # inside a subgraph only references to outer names are in ``mp`` (local names are distinct by construction)
+        apply(g2.node, mp)
+        for o in g2.output:
+            if o.name in mp:
+                o.name = mp[o.name]
+
+    m = onnx.ModelProto()
+    m.CopyFrom(model)
+    g = m.graph
+    mp = {n: f"val_{i}" for i, n in enumerate(scope_names([i.name for i in g.input], [t.name for t in g.initializer], g.node))}
+    for vi_ in list(g.input) + list(g.output) + list(g.value_info):
+        if vi_.name in mp:
+            vi_.name = mp[vi_.name]
+    for t in g.initializer:
+        t.name = mp[t.name]
+    apply(g.node, mp)
+    for f in m.functions:
+        fmp = {n: f"val_{i}" for i, n in enumerate(scope_names(list(f.input), [], f.node))}
+        for i, x in enumerate(f.input):
+            f.input[i] = fmp[x]
+        for i, x in enumerate(f.output):
+            f.output[i] = fmp.get(x, x)
+        apply(f.node, fmp)
+    return m, [{mp.get(k, k): v for k, v in fd.items()} for fd in feeds_list]
